@@ -90,6 +90,13 @@ CLAIMED["C03"] = {
     "design": "4/C03",
 }
 
+CLAIMED["C20"] = {
+    "text": "Lean theorems over a model in which every table of a compiled justfile is ordered except the unexports container: with an ordered set the dump is independent of the container's iteration order for ANY two orders of the same set and any totally ordered name type (via mergeSort uniqueness on permutations), and the proved witness that the pinned HashSet-based dump depended on it (repaired by a fix: commit). Tie to the source: a scan of every HashMap/HashSet occurrence in non-test code against a committed classification (a new or changed occurrence breaks the correspondence). Behavioural check: justfiles with several members in every collection, two-unstable-feature and compile-error justfiles x 24 non-executing command lines x 8 fresh processes each, outputs compared byte for byte; the failing JSON path / line is part of the finding signature.",
+    "note": "Partial: determinism of std and absence of other entropy sources is established by the scan and repeated fresh processes (hash seeds differ per process), not by proof. Trusted: Lean kernel; the committed classification; path normalisation of the scratch directory.",
+    "technique": "Lean 4 proof (order-independence of the ordered dump) + source scan + repeated fresh-process differential",
+    "design": "4/C20",
+}
+
 PENDING = "check not built yet in this session (see DESIGN.md build order); no claim is made"
 
 
